@@ -41,11 +41,11 @@ impl SegmentIter {
             IterDirection::Forward => offsets_index,
             IterDirection::Reverse => {
                 offsets.reverse();
-                if offsets_index == 0 && !offsets.is_empty() {
-                    0 // Start from first index after reversal (which is the last event)
-                } else if offsets_index < offsets.len() {
+                if offsets_index < offsets.len() {
+                    // The start position lies in this segment: begin at its event
                     offsets.len() - 1 - offsets_index
                 } else {
+                    // The start position is beyond this segment: begin at the last event
                     0
                 }
             }
